@@ -6,6 +6,7 @@ import (
 	"encoding/json"
 	"errors"
 	"fmt"
+	"io"
 	"os"
 	"strings"
 	"time"
@@ -35,6 +36,7 @@ type Case struct {
 	K      int    `json:"k"`
 	Clr    bool   `json:"clr,omitempty"`
 	Strict bool   `json:"strict,omitempty"`
+	Prof   bool   `json:"prof,omitempty"` // run the call while a profile is being collected (vm.runWithProfiler loop)
 	Ops    []Node `json:"ops"`
 }
 
@@ -94,6 +96,10 @@ func (r *renderer) jsNode(n Node) string {
 			return "gocall(function(){\n" + r.js(n.B) + "});"
 		case "gocallsw":
 			return "gocallsw(function(){\n" + r.js(n.B) + "});"
+		case "gowrap":
+			return "gowrap(function(){\n" + r.js(n.B) + "});"
+		case "gojoin":
+			return "gojoin(function(){\n" + r.js(n.B) + "});"
 		case "nested", "nestedsw":
 			src := r.js(n.B)
 			r.srcs = append(r.srcs, src)
@@ -118,6 +124,10 @@ func (r *renderer) jsNode(n Node) string {
 			s += fmt.Sprintf("g%d.next();\n", n.Id)
 		}
 		return s
+	case "genret":
+		// g.next() runs the try body up to the yield; g.return() then runs the finally block
+		return fmt.Sprintf("var g%d=(function*(){\ntry {\n%syield 1;\n} finally {\nlog(%d);\n%s}\n})();\ng%d.next();\ng%d.return(5);\n",
+			n.Id, r.js(n.B), evid(n.Id, 2), r.js(n.F), n.Id, n.Id)
 	case "async":
 		return "(async function(){\n" + r.js(n.B) + "await 0;\n" + r.js(n.F) + "})();"
 	case "job":
@@ -186,7 +196,8 @@ func coqNode(n Node) string {
 			return fmt.Sprintf("(INat NCb (mks [%s]))", coqCode(n.B))
 		case "foreach":
 			return fmt.Sprintf("(INat NCb (mks (rep %d %s)))", n.N, coqCode(n.B))
-		case "gocall":
+		case "gocall", "gowrap", "gojoin":
+			// a wrapped InterruptedError (%w, errors.Join) is still the uncatchable interrupt
 			return fmt.Sprintf("(INat (NGo false) (mks [%s]))", coqCode(n.B))
 		case "gocallsw":
 			return fmt.Sprintf("(INat (NGo true) (mks [%s]))", coqCode(n.B))
@@ -207,6 +218,8 @@ func coqNode(n Node) string {
 			segs = append(segs, coqCode(s))
 		}
 		return fmt.Sprintf("(IGen (mks %s))", vh.CoqList(segs))
+	case "genret":
+		return fmt.Sprintf("(IGen (mks [%s; %s]))", coqCode(n.B), coqEvThen(evid(n.Id, 2), n.F))
 	case "async":
 		return fmt.Sprintf("(IAsync %s %s)", coqCode(n.B), coqCode(n.F))
 	case "job":
@@ -262,6 +275,10 @@ type env struct {
 func classify(err error) (int, int) {
 	if err == nil {
 		return 0, 0
+	}
+	if _, isEx := err.(*goja.Exception); isEx {
+		// a script exception (possibly a GoError whose cause chain mentions an interrupt) is NOT the interrupt
+		return 2, 0
 	}
 	var ie *goja.InterruptedError
 	if errors.As(err, &ie) {
@@ -328,6 +345,24 @@ func newEnv(k int, clr bool) *env {
 			}
 		}
 	}
+	wrap := func(join bool) func(f goja.Value) error {
+		return func(f goja.Value) error {
+			fn, ok := goja.AssertFunction(f)
+			if !ok {
+				panic("not a function")
+			}
+			_, err := fn(goja.Undefined())
+			if err == nil {
+				return nil
+			}
+			if join {
+				return errors.Join(errors.New("host context"), err)
+			}
+			return fmt.Errorf("host context: %w", err)
+		}
+	}
+	vm.Set("gowrap", wrap(false))
+	vm.Set("gojoin", wrap(true))
 	vm.Set("gocall", call(false))
 	vm.Set("gocallsw", call(true))
 	if _, err := vm.RunString(setupSrc); err != nil {
@@ -365,10 +400,18 @@ func execCase(c Case) obs {
 		vm.ClearInterrupt()
 	}
 	var err error
+	if c.Prof {
+		if perr := goja.StartProfile(io.Discard); perr != nil {
+			panic(perr)
+		}
+	}
 	if c.Entry == "call" {
 		_, err = fn(goja.Undefined())
 	} else {
 		_, err = vm.RunString(src)
+	}
+	if c.Prof {
+		goja.StopProfile()
 	}
 	var o obs
 	o.Kind, o.Tok = classify(err)
@@ -436,6 +479,9 @@ func runCase(w *vh.Writer, c Case) obs {
 		if c.Clr {
 			tags = append(tags, "clear")
 		}
+		if c.Prof {
+			tags = append(tags, "profiler")
+		}
 		if o.Kind == 1 {
 			tags = append(tags, fmt.Sprintf("after_interrupt_events:%d", o.After))
 			leak := false
@@ -466,10 +512,10 @@ func runCase(w *vh.Writer, c Case) obs {
 // generation
 
 type gen struct {
-	r      *vh.Rng
-	serial int
-	budget int
-	noGen  bool // this program stays outside the region of the open finding F16 (no generator / async resumption)
+	r       *vh.Rng
+	serial  int
+	budget  int
+	noThrow int // > 0 inside the try body of a generator that is closed by return(): a throw there would run the finally
 }
 
 func (g *gen) id() int { g.serial++; return g.serial }
@@ -498,24 +544,20 @@ func (g *gen) node(depth int, inTry bool) Node {
 		case 1:
 			return Node{T: "probe"}
 		default:
-			if inTry {
+			if inTry && g.noThrow == 0 {
 				return Node{T: "throw"}
 			}
 			return Node{T: "ev", Id: g.id()}
 		}
 	}
 	d := depth - 1
-	wGen, wAsync := 7, 7
-	if g.noGen {
-		wGen, wAsync = 0, 0
-	}
-	switch g.r.Pick(10, 10, 3, 6, 14, 6, 16, 9, wGen, wAsync, 8) {
+	switch g.r.Pick(10, 10, 3, 6, 14, 6, 18, 9, 7, 7, 8, 4) {
 	case 0:
 		return Node{T: "ev", Id: g.id()}
 	case 1:
 		return Node{T: "probe"}
 	case 2:
-		if inTry {
+		if inTry && g.noThrow == 0 {
 			return Node{T: "throw"}
 		}
 		return Node{T: "probe"}
@@ -542,7 +584,7 @@ func (g *gen) node(depth int, inTry bool) Node {
 	case 5:
 		return Node{T: "call", B: g.body(d, inTry)}
 	case 6:
-		ks := []string{"sort", "foreach", "getter", "gocall", "gocallsw", "nested", "nestedsw"}
+		ks := []string{"sort", "foreach", "getter", "gocall", "gocallsw", "gowrap", "gowrap", "gojoin", "nested", "nestedsw"}
 		n := Node{T: "nat", K: ks[g.r.Intn(len(ks))]}
 		if n.K == "foreach" {
 			n.N = 1 + g.r.Intn(3)
@@ -559,14 +601,20 @@ func (g *gen) node(depth int, inTry bool) Node {
 		return n
 	case 9:
 		return Node{T: "async", B: g.body(d, true), F: g.body(d, true)}
-	default:
+	case 10:
 		return Node{T: "job", Id: g.id(), B: g.body(d, true)}
+	default:
+		n := Node{T: "genret", Id: g.id()}
+		g.noThrow++
+		n.B = g.body(d, false)
+		g.noThrow--
+		n.F = g.body(d, inTry)
+		return n
 	}
 }
 
 func (g *gen) program() []Node {
 	g.serial = 0
-	g.noGen = g.r.Chance(65)
 	g.budget = 6 + g.r.Intn(22)
 	depth := 1 + g.r.Intn(4)
 	p := g.body(depth, false)
@@ -591,6 +639,7 @@ func main() {
 				entry = "call"
 			}
 			// k = 0: count the probe calls of the undisturbed run
+			prof := g.r.Chance(12)
 			o := runCase(w, Case{Entry: entry, Mode: 0, K: 0, Ops: prog})
 			made++
 			// every probe position
@@ -599,7 +648,7 @@ func main() {
 				step = 1 + g.r.Intn(3) // long runs: a random stride, still hitting early and late positions
 			}
 			for k := 1 + g.r.Intn(step); k <= o.Probes && k <= 60 && made < m.N; k += step {
-				runCase(w, Case{Entry: entry, Mode: 0, K: k, Ops: prog})
+				runCase(w, Case{Entry: entry, Mode: 0, K: k, Prof: prof, Ops: prog})
 				made++
 				if g.r.Chance(25) && made < m.N {
 					runCase(w, Case{Entry: entry, Mode: 0, K: k, Clr: true, Ops: prog})
@@ -607,7 +656,7 @@ func main() {
 				}
 			}
 			if g.r.Chance(30) && made < m.N {
-				runCase(w, Case{Entry: entry, Mode: 1, Ops: prog})
+				runCase(w, Case{Entry: entry, Mode: 1, Prof: prof, Ops: prog})
 				made++
 			}
 			if g.r.Chance(20) && made < m.N {
@@ -666,7 +715,10 @@ func asyncStage(m vh.Mode) int {
 		}
 		clearFirst := rng.Chance(20)
 		double := rng.Chance(35) // Interrupt called twice back to back: the second write of interruptVal can overlap the runner's read
+		two := rng.Chance(35)    // a second, independent interrupting goroutine (two concurrent writers of interruptVal)
+		prof := rng.Chance(15)   // the script runs in the profiler's run loop
 		tok := 5000 + i
+		tok2 := 900000 + i
 		var handlerLog []int
 		vm := goja.New()
 		vm.Set("log", func(i int) { handlerLog = append(handlerLog, i) })
@@ -686,6 +738,21 @@ func asyncStage(m vh.Mode) int {
 		}
 		done := make(chan error, 1)
 		fired := make(chan struct{})
+		fired2 := make(chan struct{})
+		if prof {
+			if perr := goja.StartProfile(io.Discard); perr != nil {
+				panic(perr)
+			}
+		}
+		go func() {
+			defer close(fired2)
+			if two {
+				if delayUs > 0 {
+					time.Sleep(time.Duration(delayUs) * time.Microsecond)
+				}
+				vm.Interrupt(tok2)
+			}
+		}()
 		go func() {
 			defer close(fired)
 			// the interrupting goroutine
@@ -717,7 +784,7 @@ func asyncStage(m vh.Mode) int {
 		if verdict == "ok" {
 			kind, got = classify(err)
 			// a withdrawn interrupt (-1) may legitimately be the one observed if the script started before ClearInterrupt
-			if kind != 1 || (got != tok && !(clearFirst && got == -1)) {
+			if kind != 1 || (got != tok && !(clearFirst && got == -1) && !(two && got == tok2)) {
 				verdict = fmt.Sprintf("WRONG kind=%d tok=%d", kind, got)
 			}
 			if len(handlerLog) != 0 {
@@ -726,16 +793,23 @@ func asyncStage(m vh.Mode) int {
 			// the real interrupt may arrive later while idle (when the withdrawn one was observed): wait until the
 			// interrupter is done, then clear, as the API documents for re-use
 			<-fired
+			<-fired2
 			vm.ClearInterrupt()
 		}
-		rec := map[string]interface{}{"i": i, "script": asyncScripts[si], "delay_us": delayUs, "clear_first": clearFirst, "double": double,
+		if prof {
+			goja.StopProfile()
+		}
+		rec := map[string]interface{}{"i": i, "script": asyncScripts[si], "delay_us": delayUs, "clear_first": clearFirst, "double": double, "two": two, "prof": prof,
 			"verdict": verdict, "kind": kind, "tok": got, "want": tok}
 		if verdict == "ok" {
 			id := goja.VerifIdle(vm)
 			rec["idle"] = []int{id["callStack"], id["tryStack"], id["iterStack"], id["jobQueue"], id["interrupted"]}
-			leaked := id["callStack"] != 0
+			leaked := id["callStack"] != 0 || id["tryStack"] != 0 || id["iterStack"] != 0 || id["jobQueue"] != 0
 			rec["leaked"] = leaked
-			if !leaked {
+			if leaked {
+				verdict = fmt.Sprintf("NOT-CLEAN idle=%v", rec["idle"])
+				rec["verdict"] = verdict
+			} else {
 				v, err2 := vm.RunString("1+1")
 				if err2 != nil || v.ToInteger() != 2 {
 					verdict = fmt.Sprintf("NOT-REUSABLE %v", err2)
